@@ -850,12 +850,11 @@ class PCE500Emulator:
                 isr_addr_chk = INTERNAL_MEMORY_START + IMEMRegisters.ISR
                 imr_val_chk = self.memory.read_byte(imr_addr_chk, cpu_pc=pc) & 0xFF
                 isr_val_chk = self.memory.read_byte(isr_addr_chk, cpu_pc=pc) & 0xFF
-                kil_val_chk = (
-                    self.memory.read_byte(
-                        INTERNAL_MEMORY_START + IMEMRegisters.KIL, cpu_pc=pc
-                    )
-                    & 0xFF
-                )
+                # Diagnostic only: peek at KIL. A tracked read here would count as
+                # the firmware reading KIL (extra scan tick, FIFO consumed, key
+                # latch dropped) and lose the pending keyboard request.
+                kil_peek = getattr(self.keyboard, "peek_keyboard_input", None)
+                kil_val_chk = (int(kil_peek()) & 0xFF) if callable(kil_peek) else 0
                 # Capture a second IMR read via CPU regs (LLAMA) to spot divergence.
                 imr_reg_val = None
                 try:
